@@ -167,6 +167,7 @@ func (s *Service) scanFragmentForEviction(partID uint64, name string, f *fragmen
 
 				// number of valid items removed from cache to free memory for new items.
 				EvictedTotal.Increase(1)
+				count++
 			}
 			return true
 		})
